@@ -240,9 +240,9 @@ def shard(part, n, seed, known):
 
 
 def run(ctx):
-    n_clock = ctx.n(5000, 200000)
-    n_per = ctx.n(1500, 40000)
-    n_mal = ctx.n(2000, 40000)
+    n_clock = ctx.n(25000, 300000)
+    n_per = ctx.n(6000, 60000)
+    n_mal = ctx.n(8000, 60000)
     jobs = []
     for i, k in enumerate(core.split(n_clock, 12)):
         jobs.append(("clock", k, core.subseed(ctx.seed, "clock", i), ctx.known_sigs))
